@@ -54,6 +54,7 @@ def check(facts, rep, tier, cfg):
     check_r2(facts, rep, bodies)
     check_r3(facts, rep, crate, bodies)
     check_r4(facts, rep, crate, bodies)
+    check_r5_counters(facts, rep, bodies)
 
 
 def check_r2(facts, rep, bodies):
@@ -203,6 +204,48 @@ def check_r4_written_amount(facts, rep, bodies, rid="C13.R4"):
                         "the amount consumed from the stream (`%s`) is not the byte count returned by the local side's poll_write: on a "
                         "short write the unwritten tail of the chunk is dropped silently" % fmt(strip(amt))[:80])
     rep.floor(rid, "consume sites after a local poll_write", k, 1)
+
+
+def check_r5_counters(facts, rep, bodies):
+    rid = "C13.R5"
+    rep.rule(rid, "byte counters: every consume(n) is paired with an accumulation of the same n (X = n / X = X + n) on the same path, and the "
+                  "accumulated value reaches the direction's state (Transferring / Done) and return value")
+    k = 0
+    for b in bodies:
+        tr = Tracer(facts, b)
+        accs = []
+        for bi, blk in enumerate(b.blocks):
+            if blk["cleanup"]:
+                continue
+            for st in blk["stmts"]:
+                if st["k"] != "Assign" or st["lhs"].get("p"):
+                    continue
+                if b.locals[st["lhs"]["l"]]["s"] != "usize":
+                    continue
+                v = tr.rvalue(st["rv"])
+                sv = strip(v)
+                if st["rv"]["k"] in ("BinaryOp", "CheckedBinaryOp") and sv.kind == "bin" and sv[1].startswith("Add"):
+                    accs.append((bi, st["lhs"]["l"], [strip(sv[2]), strip(sv[3])], "add"))
+                elif st["rv"]["k"] == "Use":
+                    accs.append((bi, st["lhs"]["l"], [sv], "init"))
+        for bi, t in b.calls():
+            c = callee(t)
+            if not c or c["name"] != "consume":
+                continue
+            k += 1
+            where = "%s (%s)" % (loc_str(t["loc"]), b.path)
+            a = strip(tr.operand(t["args"][1]))
+            hit = [x for x in accs if any(o == a for o in x[2]) and (b.dominates(x[0], bi) or b.dominates(bi, x[0]))
+                   and b.local_name(x[1]) not in ("processed",)]
+            added = set(x[1] for x in accs if x[3] == "add")
+            hit = [x for x in hit if x[3] == "add" or x[1] in added]
+            if hit:
+                rep.ok(rid, "%s/consume#%d-counted" % (b.path, k), where, "consumed amount added to `%s`" % b.local_name(hit[0][1]))
+            else:
+                rep.bad(rid, "%s/consume-not-counted" % b.path, where,
+                        "bytes consumed here (`%s`) are not added to the direction's byte counter: the totals returned by the bridge "
+                        "under-report what was transferred" % fmt(a)[:60])
+    rep.floor(rid, "consume sites", k, 3)
 
 
 def check_r4(facts, rep, crate, bodies):
